@@ -88,6 +88,14 @@ class Resource(abc.DisposableBase):
         self.lab.add("res_dispose", self.rid)
 
 
+class FalsyResource(Resource):
+    """a resource whose truth value is False when the factory returns it (like a still-empty CompositeDisposable, which
+    has __len__): whether it is released must not depend on that"""
+
+    def __len__(self) -> int:
+        return 0
+
+
 def probe(lab: Lab, name: str, impl: Any, raise_calls: Any = ()) -> Any:
     state = {"n": 0}
 
@@ -153,6 +161,7 @@ def gen_case(r: Any, idx: int) -> dict:
             case["fault_calls"] = sorted(set(r.choice([[1], [nsubs], list(range(1, nsubs + 1)), [r.randint(1, nsubs)]])))
         if r.random() < 0.3:
             case["sub_sched"] = "immediate"     # scheduler handed to subscribe (used by using's internal throw())
+        case["falsy_resource"] = r.random() < 0.4
     elif fam in ("finally_action", "do_finally"):
         case["take"] = r.choice([None, None, 1, 2, max(1, nN), nN + 1])
     elif fam == "do_action":
@@ -202,6 +211,9 @@ def build(case: dict, lab: Lab, src: Any) -> Any:
             if fault == "resnone" and resfac_state["n"] in calls:
                 return None
             rid[0] += 1
+            if case.get("falsy_resource") and rid[0] % 2 == 1:
+                lab.add("note", "falsy_resource")
+                return FalsyResource(lab, rid[0])
             return Resource(lab, rid[0])
         resfac_state = {"n": 0}
 
